@@ -35,10 +35,12 @@ const (
 	GetOp   // explicit read through an actor (C13 late reads; reads are otherwise observations)
 	GetKeysOp
 	GetReaderOp
-	HoldReader // open a reader through an actor and keep it: drained at the end of the history (or before a reopening)
+	HoldReader  // open a reader through an actor and keep it: drained at the end of the history (or before a reopening)
+	CreateBegin // Create + the first Write calls; the file stays open
+	CreateEnd   // the remaining Write calls + Close of the file CreateBegin (Ref) opened: the write takes effect here
 )
 
-var kindNames = [...]string{"Set", "SetReader", "Create", "Delete", "Begin", "Commit", "Rollback", "GC", "Reopen", "Restart", "Get", "GetKeys", "GetReader", "HoldReader"}
+var kindNames = [...]string{"Set", "SetReader", "Create", "Delete", "Begin", "Commit", "Rollback", "GC", "Reopen", "Restart", "Get", "GetKeys", "GetReader", "HoldReader", "CreateBegin", "CreateEnd"}
 
 func (k Kind) String() string { return kindNames[k] }
 
@@ -57,6 +59,7 @@ type Op struct {
 	// IDVar: which transaction an Unknown Commit/Rollback names: 0 a well-formed id never issued, 1 the
 	// all-zero id (the store's own name for "no transaction"), 2 no transaction named at all
 	IDVar int
+	Ref   int // CreateEnd: the step of its CreateBegin (the content carries that step's id)
 }
 
 var idVarNames = [...]string{"never-issued", "all-zero-id", "no-id"}
@@ -95,6 +98,10 @@ func (o Op) String() string {
 		return fmt.Sprintf("T%d=Begin(%s)", o.Actor, o.Level)
 	case HoldReader:
 		return fmt.Sprintf("%sHoldReader(%s)", a, kq(o.Key))
+	case CreateBegin:
+		return fmt.Sprintf("%sCreateBegin(%s)", a, kq(o.Key))
+	case CreateEnd:
+		return fmt.Sprintf("%sCreateEnd(%s,of step %d)", a, kq(o.Key), o.Ref)
 	case Commit, Rollback, GetKeysOp:
 		if o.Actor == Unknown && o.Kind != GetKeysOp {
 			return a + o.Kind.String() + "(" + idVarNames[o.IDVar] + ")"
@@ -189,6 +196,7 @@ type Runner struct {
 	ctx   context.Context
 	Ended map[int]string // finished slots: how they ended
 	held  []heldReader
+	files map[int]fs_db.File // open files of CreateBegin by step
 }
 
 type heldReader struct {
@@ -473,6 +481,36 @@ func (r *Runner) apply(op Op) *Mismatch {
 				return r.mism(op, fmt.Sprintf("a reader on %s opened via %s before the collection pass and drained after it delivered %s of write #%d's value", kq(h.key), h.ak, d, h.exp.ID),
 					fmt.Sprintf("seq|held-reader@%s|exp=value,obs=%s", h.ak, wordOf(d)))
 			}
+		}
+	case CreateBegin:
+		content := dbh.Content(id, 2*DefaultLen)
+		f, err := st.Create(ctx, op.Key)
+		if err == nil {
+			_, err = f.Write(content[:DefaultLen])
+		}
+		if err != nil {
+			return r.mism(op, "Create/Write failed: "+dbh.ShortErr(err), fmt.Sprintf("seq|CreateBegin@%s|exp=nil,obs=%s", ak, dbh.Class(err)))
+		}
+		if r.files == nil {
+			r.files = map[int]fs_db.File{}
+		}
+		r.files[id] = f
+	case CreateEnd:
+		f := r.files[op.Ref]
+		if f == nil {
+			return r.mism(op, "harness: no open file for this CreateEnd", "seq|harness")
+		}
+		delete(r.files, op.Ref)
+		content := dbh.Content(op.Ref, 2*DefaultLen)
+		_, err := f.Write(content[DefaultLen:])
+		cerr := f.Close()
+		if err == nil {
+			err = cerr
+		}
+		exp := r.M.Write(modelActor(op.Actor), op.Key, op.Ref, false)
+		r.Lens[op.Ref] = 2 * DefaultLen
+		if m := cmp(err, exp); m != nil {
+			return m
 		}
 	case HoldReader:
 		a := op.Actor
